@@ -104,6 +104,23 @@ Theorem C13_flatten_app : forall a b, common_flowsets (a ++ b) = common_flowsets
 Proof. intros a b. unfold common_flowsets. apply flat_map_app. Qed.
 Print Assumptions C13_flatten_app.
 
+(* ports, protocol and times sent with another width than the usual one (repair 555d804): an
+   unsigned number of ANY width reaches the view whenever its value fits the common field *)
+Theorem C13_any_width : forall rec d,
+  let n := match d with U8 n | U16 n | U24 n | U32 n | U64 n | U128 n => n | I24 _ | I32 _ => 0 end in
+  match d with I24 _ | I32 _ => False | _ => True end ->
+  (get_last (vdisc v9_variants "L4SrcPort") rec = Some (VNum d) -> n < 2 ^ 16 -> c_sport (v9_common_flow rec) = Some n)
+  /\ (get_last (vdisc v9_variants "L4DstPort") rec = Some (VNum d) -> n < 2 ^ 16 -> c_dport (v9_common_flow rec) = Some n)
+  /\ (get_last (vdisc ipfix_variants "SourceTransportPort") rec = Some (VNum d) -> n < 2 ^ 16 -> c_sport (ipfix_common_flow rec) = Some n)
+  /\ (get_last (vdisc ipfix_variants "ProtocolIdentifier") rec = Some (VNum d) -> n < 2 ^ 8 -> c_pnum (ipfix_common_flow rec) = Some n)
+  /\ (get_last (vdisc v9_variants "FirstSwitched") rec = Some (VNum d) -> n < 2 ^ 32 -> c_first (v9_common_flow rec) = Some n).
+Proof.
+  intros rec d n Hd. unfold v9_common_flow, ipfix_common_flow, common_flow. cbn [c_sport c_dport c_pnum c_first].
+  repeat split; intros H Hn; rewrite H; cbn [opt_bind v9_upt fval_un]; apply N.ltb_lt in Hn;
+    destruct d; try contradiction; cbn [fval_un] in *; subst n; now rewrite Hn.
+Qed.
+Print Assumptions C13_any_width.
+
 (* the fields the view projects are looked up by the library's NAME for them; these are the
    element numbers RFC 3954 (table 6) and the IANA IPFIX registry give those names, checked on the
    regenerated tables: number -> variant -> name, for both protocols *)
@@ -125,15 +142,15 @@ Print Assumptions C13_field_anchors.
    is FALSE of the faithful model: the known-finding classes, each with its witness.
    K_C13_v9_protocol (narrowed by repair 39ac76d to the one protocol byte, 145, that decodes to
    Unknown): the record has the field, the view has no number; K_C13_v9_switched (narrowed to
-   durations whose millisecond count exceeds 32 bits: an 8-byte FIRST_SWITCHED); K_C13_v9_width: a
-   4-byte port is absent; K_C13_ipfix_per_field: an IPFIX data set of one record with three
+   durations whose millisecond count exceeds 32 bits: an 8-byte FIRST_SWITCHED); K_C13_v9_width (narrowed by repair 555d804
+   to values that do not fit the common field): a 4-byte port holding 70000 is absent; K_C13_ipfix_per_field: an IPFIX data set of one record with three
    fields gives three flows. *)
 Theorem C13_refuted :
   (let rec := [(vdisc v9_variants "Protocol", VProto (vdisc proto_variants "Unknown"))] in
    get_last (vdisc v9_variants "Protocol") rec <> None /\ c_pnum (v9_common_flow rec) = None /\ c_ptype (v9_common_flow rec) = None)
   /\ (let rec := [(vdisc v9_variants "FirstSwitched", dur_of DDurMillis (2 ^ 40))] in
       get_last (vdisc v9_variants "FirstSwitched") rec <> None /\ c_first (v9_common_flow rec) = None)
-  /\ (let rec := [(vdisc v9_variants "L4SrcPort", VNum (U32 443))] in
+  /\ (let rec := [(vdisc v9_variants "L4SrcPort", VNum (U32 70000))] in
       get_last (vdisc v9_variants "L4SrcPort") rec <> None /\ c_sport (v9_common_flow rec) = None)
   /\ (let p := {| ix_header := [10; 32; 0; 0; 0]%N;
                   ix_sets := [ {| is_id := 256; is_len := 16;
